@@ -86,7 +86,7 @@ theorem entailsLe_sound {gs : List BGuard} {env : BEnv} (hok : BEnvOK env) (hg :
     | some a =>
       rw [eval_some h1, eval_some h2]
       simp only [h1, h2, Bool.or_eq_true] at h
-      rcases h with ((h | h) | h) | h
+      rcases h with (((h | h) | h) | h) | h
       · -- R1
         simp only [Bool.and_eq_true, beq_iff_eq, decide_eq_true_eq] at h
         obtain ⟨⟨_, hia⟩, hle⟩ := h
@@ -116,6 +116,13 @@ theorem entailsLe_sound {gs : List BGuard} {env : BEnv} (hok : BEnvOK env) (hg :
           rw [eval_some hb, hl1] at hlt
           rw [eval_some hr2, hl2] at hlow
           omega
+      · -- R6
+        simp only [List.any_eq_true, Bool.and_eq_true, beq_iff_eq, decide_eq_true_eq, Option.isNone_iff_eq_none] at h
+        obtain ⟨g1, hg1m, ⟨⟨⟨⟨hop1, hl1⟩, _⟩, hn⟩, c, hc, hle⟩⟩ := h
+        have hlt := holds_lt (hg g1 hg1m) hop1
+        have hlow := lowerOf_sound hok hg hc
+        rw [eval_none hn, hl1] at hlt
+        omega
 
 /-- **soundness of the check**: a site that passes `safe` is in range for every assignment of lengths, indices and
     constants that satisfies the facts recorded for it -/
@@ -139,13 +146,7 @@ theorem safe_no_panic {s : BoundSite} (hs : s.safe = true) {env : BEnv} (hok : B
 
 /-! ### the regenerated sites -/
 
-/-- the sites the check cannot discharge, audited by hand (each function is pinned to its audited text below):
-    * `op.NewUserCode`: `charSet[int(bi.Int64())]` with `bi, err := rand.Int(rand.Reader, max)`, `max = len(charSet)`:
-      `crypto/rand.Int` returns a value in `[0, max)`; the character set is configuration, not input;
-    * `crypto.HashString`: `hash.Sum(nil)[:size]` with `size = hash.Size()` or half of it: the contract of `hash.Hash`
-      (`Sum(nil)` is `Size()` bytes long); the hash comes from `crypto.GetHashAlgorithm` (SHA-2 family) -/
-def auditedBoundSites : List (String × String) :=
-  [("op.NewUserCode", "charSet[int(bi.Int64())]"), ("crypto.HashString", "hash.Sum(nil)[:size]")]
+/-! the audited sites: `auditedBoundSites` (Model/C09Bounds.lean) -/
 
 /-- on the slice / index expressions regenerated from the source the check fails exactly for the audited ones -/
 theorem unsafe_bound_sites_audited :
@@ -167,6 +168,30 @@ theorem bound_sites_safe_or_audited :
 theorem c09_bound_sites_total :
     ∀ s ∈ GenC09.boundSites, (s.fn, s.expr) ∉ auditedBoundSites → ∀ env : BEnv, BEnvOK env → sitePanics s env = false :=
   fun s hs hna _ hok => safe_no_panic (bound_sites_safe_or_audited s hs hna) hok
+
+/-! ### index variables that a loop carries (`for !p(b[i]) { i-- }`, `for i := n; …; i-- { b[i] }`) -/
+
+/-- on the regenerated sites: every loop-carried index variable has a lower-bound AND an upper-bound fact that
+    dominates the access (no site is exempt - the audited two have opaque indices) -/
+theorem loop_carried_sites_guarded :
+    ((GenC09.boundSites.filter fun s => !s.loopGuarded).map fun s => (s.fn, s.expr)) = [] := by decide
+
+/-- **C09 (slice / index expressions inside loops)**: for every regenerated slice / index expression (audited ones
+    excepted) whose index is carried around a loop: both bounds of every carried index variable are guarded by a fact
+    that holds on every path to the access in EVERY iteration, and the access is in range for all lengths and all
+    values of the index that satisfy those facts -/
+theorem c09_loop_sites_total :
+    ∀ s ∈ GenC09.boundSites, (s.fn, s.expr) ∉ auditedBoundSites →
+      s.loopGuarded = true ∧ ∀ env : BEnv, BEnvOK env → sitePanics s env = false := by
+  intro s hs hna
+  refine ⟨?_, c09_bound_sites_total s hs hna⟩
+  cases hg : s.loopGuarded
+  · exfalso
+    have : (s.fn, s.expr) ∈ ((GenC09.boundSites.filter fun s => !s.loopGuarded).map fun s => (s.fn, s.expr)) :=
+      List.mem_map.mpr ⟨s, List.mem_filter.mpr ⟨hs, by simp [hg]⟩, rfl⟩
+    rw [loop_carried_sites_guarded] at this
+    cases this
+  · rfl
 
 /-- only generated code (enumer) is exempt from the scan; a hand-written file cannot hide behind the header unnoticed -/
 theorem bounds_skipped_files_pinned : GenC09.boundsSkippedFiles = ["pkg/op/applicationtype_enumer.go"] := by decide
@@ -241,5 +266,24 @@ example : ({ siteGuardMoved with guards := [⟨.ge, .len "cipherText", ⟨some (
 set_option maxRecDepth 8000 in
 /-- on the regenerated sites the real function is fine at every boundary length -/
 example : ([0, 1, 15, 16, 17].map fun n => fnPanicsAt GenC09.boundSites "crypto.DecryptBytesAES" "cipherText" n) = [false, false, false, false, false] := by decide
+
+/-! ### non-vacuity, loop-carried indices (the shape of seeded C09-M: walk back from byte 1024 to a rune start) -/
+
+/-- `for !utf8.RuneStart(body[end]) { end-- }` after `end := 1024` under `len(body) > 1024`: the upper bound is carried
+    into the loop (end only moves down), nothing bounds `end` from below -/
+def siteWalkBack : BoundSite :=
+  { fn := "http.bodyExcerpt", expr := "body[end]", base := "body", kind := "index", lo := ⟨some (.var "end"), 0⟩, hi := ⟨some (.var "end"), 1⟩,
+    guards := [⟨.ge, .len "body", ⟨none, 1025⟩, ""⟩, ⟨.lt, .var "end", ⟨none, 1025⟩, ""⟩], carried := [("end", "dec")] }
+example : siteWalkBack.loopGuarded = false := by decide
+example : siteWalkBack.safe = false := by decide
+/-- … and the model panics: a 2000-byte body, the index has reached -1 -/
+example : sitePanics siteWalkBack (fun a => match a with | .len _ => 2000 | .var _ => -1 | .other _ => 0) = true := by decide
+/-- with `end > 0 &&` in front of the access (the loop condition) both bounds are there and the access is safe -/
+example : ({ siteWalkBack with guards := siteWalkBack.guards ++ [⟨.ge, .var "end", ⟨none, 1⟩, "end > 0"⟩] } : BoundSite).loopGuarded = true := by decide
+example : ({ siteWalkBack with guards := siteWalkBack.guards ++ [⟨.ge, .var "end", ⟨none, 1⟩, "end > 0"⟩] } : BoundSite).safe = true := by decide
+/-- a lower bound alone (the fact about the start value was lost: `end` is assigned some other way) is not enough -/
+example : ({ siteWalkBack with guards := [⟨.ge, .var "end", ⟨none, 1⟩, "end > 0"⟩], carried := [("end", "other")] } : BoundSite).loopGuarded = false := by decide
+/-- the regenerated list has loop-carried sites (so the theorem is not about the empty set) -/
+example : (GenC09.boundSites.any fun s => !s.carried.isEmpty && !s.indexVars.isEmpty) = true := by decide
 
 end C09
